@@ -83,6 +83,13 @@ def events(A, f: Func) -> List[Ev]:
     cfg = cfg_of(f)
     out: List[Ev] = []
     for w in A.eff.direct_writes(f):
+        if w.field not in REL_FIELDS and isinstance(w.recv, ast.Name) and w.kind != 'store':
+            # in-place edit through a local alias of a relation list (`lst = self._list; lst.remove(x)`)
+            cn0 = cfg.node_containing(w.node) or cfg.node_of(w.node)
+            d = deref(f, w.recv, cn0)
+            if isinstance(d, ast.Attribute) and d.attr in REL_FIELDS:
+                from sa.effects import Write
+                w = Write(d.attr, A.eff.root_of(d.value, f), w.node, f, w.kind, d.value, A.typer.expr_type(d.value, f))
         if w.root == 'fresh' and w.field not in REL_FIELDS:
             continue
         if w.field in REL_FIELDS:
@@ -312,6 +319,24 @@ def resolve(f: Func, e: ast.AST, at: Optional[Node]) -> Tuple[ast.AST, Optional[
     return e, at, hops
 
 
+def deref(f: Func, e: ast.AST, at: Optional[Node], depth: int = 0) -> ast.AST:
+    """which OBJECT an expression denotes: local aliases are followed to their (unique) definition, also when the object is
+    later mutated through the alias (`lst = self._list; lst.remove(x)` edits self._list). Identity only - contents may differ."""
+    if depth > 8 or e is None:
+        return e
+    if isinstance(e, ast.Name):
+        r, rn, hops = resolve(f, e, at)
+        if hops and isinstance(r, (ast.Name, ast.Attribute)):
+            return deref(f, r, rn, depth + 1)
+        return e
+    if isinstance(e, ast.Attribute):
+        v = deref(f, e.value, at, depth + 1)
+        if v is not e.value:
+            new = ast.Attribute(value=v, attr=e.attr, ctx=ast.Load())
+            return ast.copy_location(new, e)
+    return e
+
+
 def norm_list(e: ast.AST):
     """abstract list term:
         ('filter', source, var, [conds])   [v for v in source if ..] / list(source) / source.copy() / source[:]
@@ -484,6 +509,11 @@ class A:
         return self._x[f.qual]
 
     def xp(self, f, e, at=None):
+        if isinstance(e, (ast.Name, ast.Attribute)):
+            at0 = at if at is not None else flow_of(f).node_of_expr(e)
+            d = deref(f, e, at0)
+            if d is not e:
+                return self.X(f).expand(d, at0)
         return self.X(f).expand(e, at)
 
     def events(self, f):
